@@ -456,40 +456,33 @@ static int notify_fetching_peer(const struct element *e, const struct fetch *f,
 	if (unlikely(root == NULL)) {
 		return -1;
 	}
-	cJSON *fetch_id = cJSON_Duplicate(f->fetch_id, 1);
-	if (unlikely(fetch_id == NULL)) {
+	if (unlikely(add_item_to_object(root, "method", cJSON_Duplicate(f->fetch_id, 1)) < 0)) {
 		goto error;
 	}
-	cJSON_AddItemToObject(root, "method", fetch_id);
 
 	cJSON *param = cJSON_CreateObject();
-	if (unlikely(param == NULL)) {
+	if (unlikely(add_item_to_object(root, "params", param) < 0)) {
 		goto error;
 	}
-	cJSON_AddItemToObject(root, "params", param);
 
 	if (element_is_fetch_only(e)) {
-		cJSON_AddTrueToObject(param, "fetchOnly");
-	}
-
-	cJSON *path = cJSON_CreateString(e->path);
-	if (unlikely(path == NULL)) {
-		goto error;
-	}
-	cJSON_AddItemToObject(param, "path", path);
-
-	cJSON *event = cJSON_CreateString(event_name);
-	if (unlikely(event == NULL)) {
-		goto error;
-	}
-	cJSON_AddItemToObject(param, "event", event);
-
-	if (e->value != NULL) {
-		cJSON *value = cJSON_Duplicate(e->value, 1);
-		if (unlikely(value == NULL)) {
+		if (unlikely(add_item_to_object(param, "fetchOnly", cJSON_CreateTrue()) < 0)) {
 			goto error;
 		}
-		cJSON_AddItemToObject(param, "value", value);
+	}
+
+	if (unlikely(add_item_to_object(param, "path", cJSON_CreateString(e->path)) < 0)) {
+		goto error;
+	}
+
+	if (unlikely(add_item_to_object(param, "event", cJSON_CreateString(event_name)) < 0)) {
+		goto error;
+	}
+
+	if (e->value != NULL) {
+		if (unlikely(add_item_to_object(param, "value", cJSON_Duplicate(e->value, 1)) < 0)) {
+			goto error;
+		}
 	}
 
 	char *rendered_message = cJSON_PrintUnformatted(root);
@@ -546,22 +539,17 @@ static int get_element(const struct peer *p, const struct cJSON *request, const 
 				return -1;
 			}
 
-			cJSON *path = cJSON_CreateString(e->path);
-			if (unlikely(path == NULL)) {
+			if (unlikely(add_item_to_object(root, "path", cJSON_CreateString(e->path)) < 0)) {
 				cJSON_Delete(root);
 				*response = create_error_response_from_request(p, request, INTERNAL_ERROR, "reason", "could not allocate memory for path object");
 				return -1;
 			}
-			cJSON_AddItemToObject(root, "path", path);
 
-			cJSON *value = cJSON_Duplicate(e->value, 1);
-			if (unlikely(value == NULL)) {
+			if (unlikely(add_item_to_object(root, "value", cJSON_Duplicate(e->value, 1)) < 0)) {
 				cJSON_Delete(root);
 				*response = create_error_response_from_request(p, request, INTERNAL_ERROR, "reason", "could not allocate memory for value");
 				return -1;
 			}
-
-			cJSON_AddItemToObject(root, "value", value);
 
 			cJSON_AddItemToArray(states, root);
 		}
@@ -777,6 +765,10 @@ cJSON *get_elements(const cJSON *request, const struct peer *request_peer)
 	}
 
 	cJSON *states = cJSON_CreateArray();
+	if (unlikely(states == NULL)) {
+		response = create_error_response_from_request(request_peer, request, INTERNAL_ERROR, "reason", "could not allocate memory for states array");
+		goto out;
+	}
 
 	struct list_head *item;
 	struct list_head *tmp;
